@@ -604,6 +604,12 @@ CORPUS = [
 
 
 def run(ctx):
+    _run_main(ctx)
+    import reuse_common
+    reuse_common.reuse_check(ctx, "C01")
+
+
+def _run_main(ctx):
     rng = ctx.rng
     n = ctx.n(230, 4000)
     cases = list(CORPUS)
